@@ -82,8 +82,16 @@ def run(tier, seed):
             reqs.append({"id": len(reqs) + 1000, "text": text, "formats": [[n, f] for n, f in fm.items()],
                          "kinds": [["evaluate"], ["compute"], ["assemble", "compute"]][(ci + fi) % 3],
                          "lang": "c" if (ci + fi) % 2 else "llvm"})
+    all_kinds = ["assemble", "compute", "evaluate"]
     for i, rq in enumerate(reqs):
         rq["id"] = i + 1
+        # the order in which the kernel kinds are requested is part of the request (kinds are a set: no repeats)
+        ks = list(rq["kinds"])
+        if i % 3 == 0:
+            ks = rng.sample(all_kinds, rng.choice([2, 3]))
+        elif i % 3 == 1:
+            rng.shuffle(ks)
+        rq["kinds"] = ks
     if len(reqs) < 20:
         raise MachineryError("C15: too few requests generated")
     d = workdir("c15")
